@@ -108,6 +108,15 @@ TARGETS = [
     ('Conn_get_requires_parking', 'qce_circuit.connectivity.connectivity_surface_code', None, 'get_requires_parking'),
     ('Conn_get_higher_frequency_qubit_id', 'qce_circuit.connectivity.connectivity_surface_code', None, 'get_higher_frequency_qubit_id'),
     ('Conn_get_lower_frequency_qubit_id', 'qce_circuit.connectivity.connectivity_surface_code', None, 'get_lower_frequency_qubit_id'),
+    # --- the facade (C02/C03/C05/C06/C07/C11): what `DeclarativeCircuit` adds around the structure
+    ('Decl_add_operation', 'qce_circuit.language.declarative_circuit', 'DeclarativeCircuit', 'add_operation'),
+    ('Decl_add_sub_circuit', 'qce_circuit.language.declarative_circuit', 'DeclarativeCircuit', 'add_sub_circuit'),
+    ('Decl_get_last_entry', 'qce_circuit.language.declarative_circuit', 'DeclarativeCircuit', 'get_last_entry'),
+    ('Decl_apply_modifiers', 'qce_circuit.language.declarative_circuit', 'DeclarativeCircuit', 'apply_modifiers'),
+    ('Decl_flatten', 'qce_circuit.language.declarative_circuit', 'DeclarativeCircuit', 'flatten'),
+    ('Decl_operations', 'qce_circuit.language.declarative_circuit', 'DeclarativeCircuit', 'operations'),
+    ('Decl_duration', 'qce_circuit.language.declarative_circuit', 'DeclarativeCircuit', 'duration'),
+    ('Decl_get_acquisition_strategy', 'qce_circuit.language.declarative_circuit', 'DeclarativeCircuit', 'get_acquisition_strategy'),
     # --- C19: order-preserving de-duplication
     ('Util_unique_in_order', 'qce_circuit.utilities.array_manipulation', None, 'unique_in_order'),
     # --- C18: row order of the drawing
@@ -265,6 +274,12 @@ def expr(e: ast.AST) -> str:
         return '.fstr'
     if isinstance(e, ast.Dict) and not e.keys:
         return '.call "dict" []'
+    if isinstance(e, ast.Dict) and all(k is not None for k in e.keys):
+        # a dictionary display: the list of its (key, value) pairs, in written order
+        flat = []
+        for k, v in zip(e.keys, e.values):
+            flat += [expr(k), expr(v)]
+        return f'.call "dict_of" {llist(flat)}'
     if isinstance(e, ast.List):
         return f'.list {llist([expr(x) for x in e.elts])}'
     if isinstance(e, ast.Tuple):
